@@ -78,6 +78,12 @@ class CallGen:
             name, cls = r.choice(env)
             return self.method_call(N(name), N(name), cls, r.choice(["m0", "m1", "m2", "m3", "gen", "cached", "cached_cls", "value", "as_pandas", "QMetaData"]), env, depth, allow_missing=False)
         v = r.choice([1, 2, 0.5, 10, True])
+        if env and r.random() < 0.07:
+            # an argument that holds a starred element further down (in a display that is indexed): nothing of the call itself is spread
+            name, _cls = r.choice(env)
+            self.deep_starred = getattr(self, "deep_starred", 0) + 1
+            mk = lambda: ast.Subscript(value=ast.Tuple(elts=[ast.Starred(value=attr(N(name), "raw"), ctx=ast.Load()), C(7)], ctx=ast.Load()), slice=C(0), ctx=ast.Load())  # noqa
+            return mk(), mk()
         if r.random() < 0.15:
             return ast.UnaryOp(op=ast.USub(), operand=C(3)), ast.UnaryOp(op=ast.USub(), operand=C(3))
         return C(v), C(v)
@@ -293,6 +299,8 @@ def run_case(ctx, rnd, model, ds, i):
     ctx.case(key, nt)
     ctx.count("outcome:emitted")
     ctx.count("call-sites", len(g.sites))
+    if getattr(g, "deep_starred", 0):
+        ctx.count("arguments-holding-a-starred-element-further-down", g.deep_starred)
     ctx.count("operators-with-keyword-function", getattr(g, "kw_ops", 0))
     ctx.count("operators-without-function", getattr(g, "plain_ops", 0))
     ctx.count("methods-inherited-from-python-types", getattr(g, "builtin_base", 0))
